@@ -84,44 +84,78 @@ class GuardedValue:
 
 
 class SymFlagWord:
-    def __init__(self, bits, unknown):
-        self.bits = dict(bits)       # defined single-bit value -> z3 Bool
-        self.unknown = unknown       # z3 Bool: some bit outside the defined ones is set
+    """A flag word as a 32-bit vector (co_flags is a C int; Python-level words are non-negative)."""
+
+    def __init__(self, bv):
+        self.bv = bv
 
     @staticmethod
-    def fresh(prefix, defined_values):
-        return SymFlagWord({v: z3.Bool("%sbit_%#x" % (prefix, v)) for v in defined_values}, z3.Bool(prefix + "unknown_bits"))
+    def fresh(prefix, defined_values=None):
+        return SymFlagWord(z3.BitVec(prefix + "word", 32))
 
     @staticmethod
     def of_int(n):
-        bits, v = {}, 1
-        while v <= n:
-            if n & v:
-                bits[v] = z3.BoolVal(True)
-            v <<= 1
-        return SymFlagWord(bits, z3.BoolVal(False))
+        return SymFlagWord(z3.BitVecVal(n, 32))
 
     def bit(self, v):
-        return self.bits.get(v, z3.BoolVal(False))
+        return (self.bv & z3.BitVecVal(v, 32)) != 0
+
+    def unknown(self, defined_values):
+        mask = 0
+        for v in defined_values:
+            mask |= v
+        return (self.bv & z3.BitVecVal(~mask & 0xFFFFFFFF, 32)) != 0
 
     def __bool__(self):
-        return Ctx.cur.decide(z3.Or(self.unknown, *self.bits.values()))
+        return Ctx.cur.decide(self.bv != 0)
+
+    def _other(self, o):
+        if isinstance(o, SymFlagWord):
+            return o.bv
+        if isinstance(o, int) and not isinstance(o, bool) and -2 ** 32 <= o < 2 ** 32:
+            return z3.BitVecVal(int(o) & 0xFFFFFFFF, 32)     # a negative mask (~m) in two's complement: exact for `&` with a non-negative 32-bit word
+        raise Unsupported("flag word operand %r" % (o,))
 
     def __or__(self, o):
         if isinstance(o, GuardedValue):
-            if o.value & (o.value - 1):
-                raise Unsupported("multi-bit flag value")
-            b = dict(self.bits)
-            b[o.value] = z3.simplify(z3.Or(b.get(o.value, z3.BoolVal(False)), o.guard))
-            return SymFlagWord(b, self.unknown)
-        if isinstance(o, int) and not isinstance(o, bool):
-            return self | GuardedValue(o, z3.BoolVal(True)) if o and not (o & (o - 1)) else (self if o == 0 else _unsupported("| multi-bit int"))
-        raise Unsupported("SymFlagWord | %r" % (o,))
+            return SymFlagWord(self.bv | z3.If(o.guard, z3.BitVecVal(o.value, 32), z3.BitVecVal(0, 32)))
+        return SymFlagWord(self.bv | self._other(o))
 
     __ior__ = __or__
+    __ror__ = __or__
+
+    def __and__(self, o):
+        return SymFlagWord(self.bv & self._other(o))
+
+    __rand__ = __and__
+
+    def __gt__(self, o):
+        return SymBool(z3.UGT(self.bv, self._other(o)))
+
+    def __ge__(self, o):
+        return SymBool(z3.UGE(self.bv, self._other(o)))
+
+    def __lt__(self, o):
+        return SymBool(z3.ULT(self.bv, self._other(o)))
+
+    def __le__(self, o):
+        return SymBool(z3.ULE(self.bv, self._other(o)))
+
+    def __eq__(self, o):
+        try:
+            return SymBool(self.bv == self._other(o))
+        except Unsupported:
+            return False
+
+    def __ne__(self, o):
+        r = self.__eq__(o)
+        return ~r if isinstance(r, SymBool) else True
 
     def __index__(self):
         raise Unsupported("concretisation of a symbolic flag word")
+
+    def __format__(self, spec):
+        return "<symbolic flag word>"
 
     def __hash__(self):
         raise Unsupported("hash")
